@@ -16,14 +16,14 @@ TRUST = ["user RcObject::pop_edges / Drop honour the RcObject safety contract",
 
 prop("C01", "other",
      ["CW-SITES", "OWN-BALANCE", "OWN-PRIMITIVES", "CW-TOKEN", "CW-SPLIT-INC-PROTECTED", "CW-ZERO-DEFERS",
-      "CW-ATTEMPT-RECHECK", "CW-DEFERRED-ONLY"],
+      "CW-DEC-NONZERO", "CW-ATTEMPT-RECHECK", "CW-DEFERRED-ONLY"],
      [COMPOSITION], assumptions=TRUST)
 prop("C03", "other",
      ["CW-SITES", "OWN-BALANCE", "OWN-PRIMITIVES", "CW-WEAK-PROTOCOL", "CW-SPLIT-INC-PROTECTED", "CW-DEFERRED-ONLY"],
      [COMPOSITION], assumptions=TRUST)
 prop("C04", "other",
-     ["CW-SITES", "CW-DESTRUCT-ONCE", "CW-DESTRUCT-ORDER", "CW-ZERO-DEFERS", "OWN-BALANCE", "CW-WEAK-PROTOCOL",
-      "CW-ALLOC-RANGE"],
+     ["CW-SITES", "CW-DESTRUCT-ONCE", "CW-DESTRUCT-ORDER", "CW-ZERO-DEFERS", "CW-DEC-NONZERO", "OWN-BALANCE",
+      "CW-WEAK-PROTOCOL", "CW-ALLOC-RANGE"],
      ["'after a bounded number of collection rounds' (liveness of EBR)", "cycles (excluded by the statement)",
       COMPOSITION], assumptions=TRUST)
 prop("C09", "other",
@@ -31,7 +31,7 @@ prop("C09", "other",
      ["linearizability of concurrent histories (each completed call performs one successful atomic operation on one word; "
       "the history-level claim is not checked)"], assumptions=TRUST)
 prop("C10", "other",
-     ["OWN-BALANCE", "OWN-PRIMITIVES", "CW-ALLOC-RANGE"],
+     ["OWN-BALANCE", "OWN-PRIMITIVES", "CW-ALLOC-RANGE", "CW-DEC-NONZERO", "CW-ZERO-DEFERS"],
      [], assumptions=TRUST)
 
 # ------------------------------------------------------------------------------------------
@@ -59,7 +59,7 @@ register("REC-IMMEDIATE", rules_rec.rule_immediate)
 SCHED = "the schedule-quantified statement itself (that these necessary ordering/gating conditions compose under every interleaving is a model-checking question outside this family)"
 
 prop("C02", "other",
-     ["CW-STAMP-PINNED", "CW-STAMP-ON-DEC", "LINK-STAMP", "CW-CASCADE-MERGE", "CW-CASCADE-DECISION", "CW-DEFERRED-ONLY",
+     ["CW-STAMP-PINNED", "CW-STAMP-ON-DEC", "CW-STAMP-MODULAR", "LINK-STAMP", "CW-CASCADE-MERGE", "CW-CASCADE-DECISION", "CW-DEFERRED-ONLY",
       "CW-TOKEN", "EBR-COLLECT-OUTERMOST", "TY-SIG"],
      ["the EBR grace-period argument itself (C13)", COMPOSITION],
      witnesses=["TY-SNAPSHOT-GUARD", "TY-REACTIVATE-MUT"], assumptions=TRUST)
@@ -118,7 +118,7 @@ prop("C11", "proof",
      ["BIT-TAGGED", "BIT-DELEGATION"],
      [], assumptions=BITTRUST)
 prop("C12", "proof",
-     ["BIT-STATE", "MOD-WINDOW", "CW-CASCADE-DECISION"],
+     ["BIT-STATE", "MOD-WINDOW", "CW-CASCADE-DECISION", "CW-STAMP-MODULAR"],
      [], assumptions=BITTRUST + ["field independence of add_*/sub_* for in-range values follows from the verified linear form "
                                  "`s +/- v*unit` by elementary arithmetic (no carry leaves a contiguous field while the field's "
                                  "value stays in range); out-of-range counts are CW-ALLOC-RANGE's findings"])
